@@ -11,15 +11,22 @@ import (
 
 type c15Bits struct {
 	bits []byte // one bit per element (0/1), possibly symbolic
+	cut  bool   // C16 huge mode: the stream ends after the huge code, later elements are dropped
 }
 
 func (w *c15Bits) u(v uint64, n int) {
+	if w.cut {
+		return
+	}
 	for k := n - 1; k >= 0; k-- {
 		w.bits = append(w.bits, byte((v>>uint(k))&1))
 	}
 }
 
 func (w *c15Bits) flag(f bool) {
+	if w.cut {
+		return
+	}
 	w.bits = append(w.bits, vfy.IteU8(f, 1, 0)) // no fork on a symbolic flag
 }
 
@@ -28,10 +35,20 @@ func (w *c15Bits) flag(f bool) {
 type c15V struct {
 	v uint64
 	m int
+	// C16 huge mode: written as [hm zeros][1][hm info bits hv] instead, and the stream is cut
+	hv uint64
+	hm int
 }
 
 // ue writes an unsigned Exp-Golomb code (9.1): [m zeros][1][m info bits], codeNum+1 = 1<<m | info.
 func (w *c15Bits) ue(e c15V) {
+	if e.hm > 0 {
+		w.u(0, e.hm)
+		w.u(1, 1)
+		w.u(e.hv, e.hm)
+		w.cut = true
+		return
+	}
 	w.u(0, e.m)
 	w.u(e.v+1, e.m+1)
 }
@@ -42,8 +59,19 @@ func c15C(v uint64) c15V {
 	for (v+1)>>uint(m+1) != 0 {
 		m++
 	}
-	return c15V{v, m}
+	if c15Huge > 0 && !c15FocusTaken {
+		// huge mode: the concrete elements (counts, types) are candidates as well; the generator
+		// keeps the structure of v
+		c15CIdx++
+		if h, ok := c15HugeElem("c" + string(rune('a'+c15CIdx/26)) + string(rune('a'+c15CIdx%26))); ok {
+			h.v, h.m = v, m
+			return h
+		}
+	}
+	return c15V{v: v, m: m}
 }
+
+var c15CIdx int
 
 // signed value of a se(v) code number k (9.1.1): (-1)^(k+1) * ceil(k/2), computed without a branch.
 func (e c15V) signed() int64 {
@@ -56,6 +84,48 @@ func (e c15V) signed() int64 {
 // instance's class (clamped to the element's range), the info bits are symbolic; in sweep mode
 // one element per path additionally takes every code length of its range.
 var c15Class, c15Sign int
+
+// c15Huge > 0 (property C16): exactly one element per path is written as an Exp-Golomb code with
+// c15Huge leading zero bits, whatever its legal range, and the stream ends
+// there; the generator itself goes on with the in-range value it drew. The harness then returns after the parser
+// call that saw the cut stream.
+var c15Huge int
+
+// c15Bool draws a flag. In huge mode the flags are concrete (c15HugeBools: 1 all set, 2 all
+// clear, 3 alternating), so that one path per replaced element remains.
+var c15HugeBools, c15BoolIdx int
+
+func c15Bool(name string) bool {
+	b := vfy.Bool(name)
+	if c15Huge > 0 && c15HugeBools > 0 {
+		c15BoolIdx++
+		want := c15HugeBools == 1 || c15HugeBools == 3 && c15BoolIdx%2 == 1
+		vfy.Assume(b == want)
+		return want
+	}
+	return b
+}
+
+func c15HugeCut() bool { return c15Huge > 0 && c15FocusTaken }
+
+// c15HugeLast stands before the last parser call of a harness: in huge mode a path on which no
+// element was replaced is of no interest (it is what C15 explores).
+func c15HugeLast() {
+	if c15Huge > 0 && !c15FocusTaken {
+		vfy.Assume(false)
+	}
+}
+
+func c15HugeElem(name string) (c15V, bool) {
+	if c15Huge > 0 && !c15FocusTaken && vfy.Choose(name+".huge", 2) == 0 { // 0 first: early elements first
+		c15FocusTaken = true
+		// info bits 0...0 or 0...01 (code number odd / even: both signs of a se(v)), concrete so
+		// that count-driven loops in the parser run concretely into the step budget
+		hv := uint64(vfy.Choose(name+".hv", 2))
+		return c15V{hv: hv, hm: c15Huge}, true
+	}
+	return c15V{}, false
+}
 var c15Sweep, c15FocusTaken bool
 
 // c15Begin: class = m + 100*sweep + 1000*signSeed. With sweep, one element per path additionally
@@ -63,6 +133,7 @@ var c15Sweep, c15FocusTaken bool
 // positive), because bits.ReadSignedGolomb forks on it; magnitudes stay symbolic.
 func c15Begin(class int) {
 	c15Sweep, c15FocusTaken = (class/100)%10 != 0, false
+	c15CIdx, c15BoolIdx = 0, 0
 	c15Class = class % 100
 	c15Sign = class / 1000
 }
@@ -80,7 +151,11 @@ func c15Free(name string, max uint64) c15V {
 	info := uint64(vfy.U16(name)) & ((1 << uint(m)) - 1)
 	v := ((1 << uint(m)) | info) - 1
 	vfy.Assume(v <= max)
-	return c15V{v, m}
+	if h, ok := c15HugeElem(name); ok {
+		h.v, h.m = v, m
+		return h
+	}
+	return c15V{v: v, m: m}
 }
 
 // c15SE draws the code number of a se(v) element.
@@ -100,6 +175,16 @@ func c15Elem(name string, max uint64, signed bool) c15V {
 		m = vfy.Choose(name+".m", maxM+1)
 	}
 	info := uint64(vfy.U16(name)) & ((1 << uint(m)) - 1)
+	if c15Huge > 0 && c15HugeBools > 0 {
+		// huge mode with concrete flags: concrete info bits as well (all set / clear / 0101..)
+		c15BoolIdx++
+		want := ([]uint64{0, 0xffff, 0, 0x5555}[c15HugeBools] + uint64(c15BoolIdx)*7) & ((1 << uint(m)) - 1)
+		if ((1<<uint(m))|want)-1 > max {
+			want = 0
+		}
+		vfy.Assume(info == want)
+		info = want
+	}
 	if signed && m > 0 {
 		c15Sign++
 		info = info&^1 | uint64(1^(c15Sign&1)) // code number odd <=> value positive
@@ -108,7 +193,11 @@ func c15Elem(name string, max uint64, signed bool) c15V {
 	if (uint64(1)<<uint(m+1))-2 > max {
 		vfy.Assume(v <= max)
 	}
-	return c15V{v, m}
+	if h, ok := c15HugeElem(name); ok { // the generator goes on with the in-range value
+		h.v, h.m = v, m
+		return h
+	}
+	return c15V{v: v, m: m}
 }
 
 // bytes finishes with rbsp_trailing_bits and packs the bits; the harness assumes (and the solver
@@ -127,7 +216,11 @@ func (w *c15Bits) bytes(nalHdr byte) []byte {
 		out = append(out, b)
 	}
 	for i := 1; i+2 < len(out); i++ {
-		vfy.Assume(!vfy.And3(out[i] == 0, out[i+1] == 0, out[i+2] <= 3))
+		if c15Huge > 0 {
+			vfy.Assume(!vfy.And3(out[i] == 0, out[i+1] == 0, out[i+2] == 3)) // all the reader acts on
+		} else {
+			vfy.Assume(!vfy.And3(out[i] == 0, out[i+1] == 0, out[i+2] <= 3))
+		}
 	}
 	return out
 }
@@ -235,7 +328,7 @@ type c15HRD struct {
 func c15GenHRD(n int) *c15HRD {
 	h := &c15HRD{cpbCnt: n, brScale: uint64(vfy.U8("brscale")) & 15, cpbScale: uint64(vfy.U8("cpbscale")) & 15}
 	for i := 0; i < n; i++ {
-		h.br, h.cpb, h.cbr = append(h.br, c15UE("bitrate", 100000)), append(h.cpb, c15UE("cpbsize", 100000)), append(h.cbr, vfy.Bool("cbr"))
+		h.br, h.cpb, h.cbr = append(h.br, c15UE("bitrate", 100000)), append(h.cpb, c15UE("cpbsize", 100000)), append(h.cbr, c15Bool("cbr"))
 	}
 	h.initLen, h.remLen, h.dpbLen, h.tol = uint64(vfy.U8("initlen"))&31, uint64(vfy.U8("remlen"))&31, uint64(vfy.U8("dpblen"))&31, uint64(vfy.U8("tol"))&31
 	return h
@@ -290,11 +383,11 @@ func c15GenVUIExt(shape int) *c15VUIExt {
 	x := &c15VUIExt{}
 	x.overscan = shape&2 != 0
 	if x.overscan {
-		x.overscanOK = vfy.Bool("overscanok")
+		x.overscanOK = c15Bool("overscanok")
 	}
 	x.videoSignal = shape&4 != 0
 	if x.videoSignal {
-		x.videoFormat, x.fullRange = uint64(vfy.U8("vformat"))&7, vfy.Bool("fullrange")
+		x.videoFormat, x.fullRange = uint64(vfy.U8("vformat"))&7, c15Bool("fullrange")
 		x.colourDesc = shape&8 != 0
 		if x.colourDesc {
 			x.prim, x.transfer, x.matrix = uint64(vfy.U8("prim")), uint64(vfy.U8("transfer")), uint64(vfy.U8("matrix"))
@@ -315,12 +408,12 @@ func c15GenVUIExt(shape int) *c15VUIExt {
 		x.vclHRD = c15GenHRD(3 - n)
 	}
 	if x.nalHRD != nil || x.vclHRD != nil {
-		x.lowDelay = vfy.Bool("lowdelay")
+		x.lowDelay = c15Bool("lowdelay")
 	}
-	x.picStruct = vfy.Bool("picstruct")
+	x.picStruct = c15Bool("picstruct")
 	x.restriction = shape&256 != 0
 	if x.restriction {
-		x.mvOverPic = vfy.Bool("mvoverpic")
+		x.mvOverPic = c15Bool("mvoverpic")
 		x.br = [6]c15V{c15UE("maxbytes", 16), c15UE("maxbits", 16), c15UE("log2mvh", 16), c15UE("log2mvv", 16), c15UE("reorder", 16), c15UE("decbuf", 16)}
 	}
 	return x
@@ -359,7 +452,7 @@ func c15GenSPS(variant int, concreteLog2 bool) *c15SPS {
 			}
 		}
 		s.bdl, s.bdc = c15UE("bdl", 6), c15UE("bdc", 6)
-		s.qpprime = vfy.Bool("qpprime")
+		s.qpprime = c15Bool("qpprime")
 	}
 	s.log2fn = c15UE("log2fn", 12)
 	log2c := 0
@@ -377,7 +470,7 @@ func c15GenSPS(variant int, concreteLog2 bool) *c15SPS {
 			s.log2poc = c15C([]uint64{12, 3, 0}[log2c])
 		}
 	case 1:
-		s.deltaAlwaysZero = vfy.Bool("daz")
+		s.deltaAlwaysZero = c15Bool("daz")
 		s.offNonRef = c15SE("offnr", 1000)
 		s.offTopBot = c15SE("offtb", 1000)
 		n := vfy.Choose("ncycle", 3)
@@ -386,14 +479,14 @@ func c15GenSPS(variant int, concreteLog2 bool) *c15SPS {
 		}
 	}
 	s.numRef = c15UE("numref", 16)
-	s.gaps = vfy.Bool("gaps")
+	s.gaps = c15Bool("gaps")
 	s.wMbs = c15UE("wmbs", 510)
 	s.hMap = c15UE("hmap", 510)
 	s.frameMbsOnly = variant&8 == 0
 	if !s.frameMbsOnly {
-		s.mbaff = vfy.Bool("mbaff")
+		s.mbaff = c15Bool("mbaff")
 	}
-	s.direct8x8 = vfy.Bool("d8x8")
+	s.direct8x8 = c15Bool("d8x8")
 	s.crop = variant&16 != 0
 	if s.crop {
 		s.cl, s.cr, s.ct, s.cb = c15UE("cl", 7), c15UE("cr", 7), c15UE("ct", 7), c15UE("cb", 7)
@@ -404,7 +497,7 @@ func c15GenSPS(variant int, concreteLog2 bool) *c15SPS {
 			s.arPresent, s.arIDC = true, 1
 			s.timing = true
 			s.unitsInTick, s.timeScale = uint64(vfy.U32("uit")), uint64(vfy.U32("tsc"))
-			s.fixedRate = vfy.Bool("fixed")
+			s.fixedRate = c15Bool("fixed")
 			return s
 		}
 		s.arPresent = vfy.Choose("ar", 2) == 1
@@ -420,7 +513,7 @@ func c15GenSPS(variant int, concreteLog2 bool) *c15SPS {
 		s.timing = vfy.Choose("timing", 2) == 1
 		if s.timing {
 			s.unitsInTick, s.timeScale = uint64(vfy.U32("uit")), uint64(vfy.U32("tsc"))
-			s.fixedRate = vfy.Bool("fixed")
+			s.fixedRate = c15Bool("fixed")
 		}
 	}
 	return s
@@ -622,7 +715,11 @@ func VerifC15SPS(variant, class int) {
 	c15Begin(class)
 	s := c15GenSPS(variant, false)
 	nalu := s.serialize()
+	c15HugeLast()
 	got, err := ParseSPSNALUnit(nalu, true)
+	if c15HugeCut() {
+		return
+	}
 	vfy.Assert(err == nil, "serialized SPS parses")
 	if err != nil {
 		return
@@ -647,14 +744,14 @@ type c15PPS struct {
 func c15GenPPS(spsID c15V, more bool) *c15PPS {
 	p := &c15PPS{spsID: spsID, more: more}
 	p.id = c15UE("ppsid", 255)
-	p.cabac, p.bottomField = vfy.Bool("cabac"), vfy.Bool("bf")
+	p.cabac, p.bottomField = c15Bool("cabac"), c15Bool("bf")
 	p.l0, p.l1 = c15UE("l0", 31), c15UE("l1", 31)
-	p.wp = vfy.Bool("wp")
+	p.wp = c15Bool("wp")
 	p.wbi = uint64(vfy.U8("wbi")) & 3
 	p.qp, p.qs, p.cqp = c15SE("qp", 52), c15SE("qs", 52), c15SE("cqp", 24)
-	p.deblock, p.constrained, p.redundant = vfy.Bool("db"), vfy.Bool("ci"), vfy.Bool("rp")
+	p.deblock, p.constrained, p.redundant = c15Bool("db"), c15Bool("ci"), c15Bool("rp")
 	if more {
-		p.t8x8 = vfy.Bool("t8")
+		p.t8x8 = c15Bool("t8")
 		p.cqp2 = c15SE("cqp2", 24)
 	}
 	return p
@@ -695,15 +792,21 @@ func VerifC15PPSSlice(spsVariant, class int, more bool, idr bool) {
 	s := c15GenSPS(spsVariant, true)
 	spsNalu := s.serialize()
 	sps, err := ParseSPSNALUnit(spsNalu, true)
+	if c15HugeCut() {
+		return
+	}
 	vfy.Assert(err == nil, "SPS parses")
 	if err != nil {
 		return
 	}
 	spsMap := map[uint32]*SPS{uint32(sps.ParameterID): sps}
 	p := c15GenPPS(s.id, more)
-	vfy.Assume(p.id.v != s.id.v)
+	vfy.Assume(c15Huge > 0 || p.id.v != s.id.v)
 	ppsNalu := p.serialize()
 	pps, err := ParsePPSNALUnit(ppsNalu, spsMap)
+	if c15HugeCut() {
+		return
+	}
 	vfy.Assert(err == nil, "serialized PPS parses")
 	if err != nil {
 		return
@@ -741,10 +844,10 @@ func VerifC15PPSSlice(spsVariant, class int, more bool, idr bool) {
 	w.u(frameNum, fnBits)
 	fieldPic, bottom := false, false
 	if !s.frameMbsOnly {
-		fieldPic = vfy.Bool("fieldpic")
+		fieldPic = c15Bool("fieldpic")
 		w.flag(fieldPic)
 		if fieldPic {
-			bottom = vfy.Bool("bottom")
+			bottom = c15Bool("bottom")
 			w.flag(bottom)
 		}
 	}
@@ -772,8 +875,8 @@ func VerifC15PPSSlice(spsVariant, class int, more bool, idr bool) {
 	}
 	// dec_ref_pic_marking (nal_ref_idc != 0)
 	if idr {
-		w.flag(vfy.Bool("noout")) // no_output_of_prior_pics_flag
-		w.flag(vfy.Bool("ltref")) // long_term_reference_flag
+		w.flag(c15Bool("noout")) // no_output_of_prior_pics_flag
+		w.flag(c15Bool("ltref")) // long_term_reference_flag
 	} else {
 		w.flag(false) // adaptive_ref_pic_marking_mode_flag
 	}
@@ -791,7 +894,11 @@ func VerifC15PPSSlice(spsVariant, class int, more bool, idr bool) {
 		hdr = 0x61
 	}
 	nalu := w.bytes(hdr)
+	c15HugeLast()
 	sh, err := ParseSliceHeader(nalu, spsMap, ppsMap)
+	if c15HugeCut() {
+		return
+	}
 	vfy.Assert(err == nil, "slice header parses (PPS by pps id, SPS by that PPS's sps id)")
 	if err != nil {
 		return
@@ -820,6 +927,9 @@ func VerifC15Config(variant, class int) {
 	p := c15GenPPS(s.id, false)
 	ppsNalu := p.serialize()
 	rec, err := CreateAVCDecConfRec([][]byte{spsNalu}, [][]byte{ppsNalu}, true)
+	if c15HugeCut() {
+		return
+	}
 	vfy.Assert(err == nil, "CreateAVCDecConfRec")
 	if err != nil {
 		return
@@ -840,6 +950,9 @@ func VerifC15Config(variant, class int) {
 	}
 	vfy.Assert(uint64(rec.ChromaFormat) == s.chroma.v && uint64(rec.BitDepthLumaMinus1) == s.bdl.v && uint64(rec.BitDepthChromaMinus1) == s.bdc.v, "record chroma format and bit depths")
 	sps, err := ParseSPSNALUnit(spsNalu, false)
+	if c15HugeCut() {
+		return
+	}
 	if err == nil {
 		cs := CodecString("avc1", sps)
 		hexd := func(d uint64) byte { return byte(d + 48 + ((d+6)>>4)*7) } // 0-9A-F without a table lookup
@@ -882,7 +995,11 @@ func VerifC15SPSExt(shape, class int) {
 	}
 	s.x = c15GenVUIExt(shape)
 	nalu := s.serialize()
+	c15HugeLast()
 	got, err := ParseSPSNALUnit(nalu, true)
+	if c15HugeCut() {
+		return
+	}
 	vfy.Assert(err == nil, "serialized SPS parses")
 	if err != nil {
 		return
@@ -944,6 +1061,9 @@ func VerifC15PPSExt(shape, class int) {
 	c15FixChroma = -1
 	spsNalu := s.serialize()
 	sps, err := ParseSPSNALUnit(spsNalu, true)
+	if c15HugeCut() {
+		return
+	}
 	vfy.Assert(err == nil, "SPS parses")
 	if err != nil {
 		return
@@ -969,7 +1089,11 @@ func VerifC15PPSExt(shape, class int) {
 		p.scaling = append(p.scaling, c15GenSL(size, kinds[(i+shape/4)%12]))
 	}
 	ppsNalu := p.serialize()
+	c15HugeLast()
 	pps, err := ParsePPSNALUnit(ppsNalu, spsMap)
+	if c15HugeCut() {
+		return
+	}
 	vfy.Assert(err == nil, "serialized PPS with a scaling matrix parses")
 	if err != nil {
 		return
@@ -1006,13 +1130,16 @@ func VerifC15PBSlice(kind, shape, class int) {
 	c15FixChroma = -1
 	spsNalu := s.serialize()
 	sps, err := ParseSPSNALUnit(spsNalu, true)
+	if c15HugeCut() {
+		return
+	}
 	vfy.Assert(err == nil, "SPS parses")
 	if err != nil {
 		return
 	}
 	spsMap := map[uint32]*SPS{uint32(sps.ParameterID): sps}
 	p := c15GenPPS(s.id, false)
-	vfy.Assume(p.id.v != s.id.v)
+	vfy.Assume(c15Huge > 0 || p.id.v != s.id.v)
 	st := kind % 5
 	isP, isB, isSP, isSI := st == 0, st == 1, st == 3, st == 4
 	n0, n1 := 1, 1
@@ -1036,6 +1163,9 @@ func VerifC15PBSlice(kind, shape, class int) {
 	p.cabac, p.deblock = sb(10), sb(11)
 	ppsNalu := p.serialize()
 	pps, err := ParsePPSNALUnit(ppsNalu, spsMap)
+	if c15HugeCut() {
+		return
+	}
 	vfy.Assert(err == nil, "PPS parses")
 	if err != nil {
 		return
@@ -1055,7 +1185,7 @@ func VerifC15PBSlice(kind, shape, class int) {
 	w.u(pocLsb, pb)
 	direct := false
 	if isB {
-		direct = vfy.Bool("direct")
+		direct = c15Bool("direct")
 		w.flag(direct)
 	}
 	if isP || isSP || isB {
@@ -1154,7 +1284,7 @@ func VerifC15PBSlice(kind, shape, class int) {
 	var qsd c15V
 	if isSP || isSI {
 		if isSP {
-			spSwitch = vfy.Bool("spswitch")
+			spSwitch = c15Bool("spswitch")
 			w.flag(spSwitch)
 		}
 		qsd = c15SE("qsd", 100)
@@ -1176,7 +1306,11 @@ func VerifC15PBSlice(kind, shape, class int) {
 	hdrBits := len(w.bits)
 	w.u(uint64(vfy.U8("data")), 8)
 	nalu := w.bytes(refIDC<<5 | 1)
+	c15HugeLast()
 	sh, err := ParseSliceHeader(nalu, spsMap, ppsMap)
+	if c15HugeCut() {
+		return
+	}
 	vfy.Assert(err == nil, "P/B/SP/SI slice header parses")
 	if err != nil {
 		return
